@@ -16,6 +16,38 @@ inline std::vector<z_var> var_vec(const vj::Value &a, const VarTab &vt) {
   return r;
 }
 
+// ---- regions / references (C15) ------------------------------------------
+// allocation sites: make_ref statement with "site":k uses the k-th tag of one process-wide tag_manager
+// (tag_manager hands out ids 0,1,2,...: the id of site k is k, which is what get_allocation_sites reports)
+inline crab::tag site_tag(long k) {
+  static crab::tag_manager man;
+  static std::vector<crab::tag> tags;
+  while ((long)tags.size() <= k) tags.push_back(man.mk_tag());
+  return tags[k];
+}
+// RC = {"k":"eq"|"ne"|"lt"|"le"|"gt"|"ge","p":var,"q":var|0 (null),"off":n}   meaning  p k q + off
+inline z_ref_cst_t ref_cst(const vj::Value &c, const VarTab &vt) {
+  const std::string &k = c["k"].str();
+  z_var p = vt.v(c["p"].i());
+  if (c["q"].i() == 0) {
+    if (k == "eq") return z_ref_cst_t::mk_null(p);
+    if (k == "ne") return z_ref_cst_t::mk_not_null(p);
+    if (k == "lt") return z_ref_cst_t::mk_lt_null(p);
+    if (k == "le") return z_ref_cst_t::mk_le_null(p);
+    if (k == "gt") return z_ref_cst_t::mk_gt_null(p);
+    return z_ref_cst_t::mk_ge_null(p);
+  }
+  z_var q = vt.v(c["q"].i());
+  z_number off(c.geti("off", 0));
+  if (k == "eq") return z_ref_cst_t::mk_eq(p, q, off);
+  if (k == "ne") return z_ref_cst_t::mk_not_eq(p, q, off);
+  if (k == "lt") return z_ref_cst_t::mk_lt(p, q, off);
+  if (k == "le") return z_ref_cst_t::mk_le(p, q, off);
+  if (k == "gt") return z_ref_cst_t::mk_gt(p, q, off);
+  return z_ref_cst_t::mk_ge(p, q, off);
+}
+inline z_var_or_cst_t int_cst(long n, unsigned w = 32) { return z_var_or_cst_t(z_number(n), crab::variable_type(crab::INT_TYPE, w)); }
+
 inline void add_stmt(z_basic_block_t &bb, const vj::Value &st, const VarTab &vt) {
   const std::string &op = st["op"].str();
   auto X = [&](const char *k) { return vt.v(st[k].i()); };
@@ -82,6 +114,50 @@ inline void add_stmt(z_basic_block_t &bb, const vj::Value &st, const VarTab &vt)
     bb.array_load(X("x"), X("a"), lin_exp(st["i"], vt), z_lin_exp_t(z_number(st.geti("es", 1))));
   } else if (op == "aassign") {
     bb.array_assign(X("a"), X("b"));
+  } else if (op == "rinit") {
+    bb.region_init(X("r"));
+  } else if (op == "rcopy") {
+    bb.region_copy(X("l"), X("r"));
+  } else if (op == "rcast") {
+    bb.region_cast(X("r"), X("l"));
+  } else if (op == "mkref") {
+    bb.make_ref(X("x"), X("r"), int_cst(st["sz"].i()), site_tag(st["site"].i()));
+  } else if (op == "rnull") {
+    if (st.geti("hv", 0)) bb.havoc(X("x"));
+    bb.assume_ref(z_ref_cst_t::mk_null(X("x")));
+  } else if (op == "rmref") {
+    bb.remove_ref(X("r"), X("x"));
+  } else if (op == "rstore") {
+    z_var r = X("r");
+    if (st["vk"].i() == 0) bb.store_to_ref(X("ref"), r, z_var_or_cst_t(X("v")));
+    else if (r.get_type().is_bool_region())
+      bb.store_to_ref(X("ref"), r, st["v"].i() ? z_var_or_cst_t::make_bool_true() : z_var_or_cst_t::make_bool_false());
+    else if (r.get_type().is_reference_region()) bb.store_to_ref(X("ref"), r, z_var_or_cst_t::make_reference_null());
+    else bb.store_to_ref(X("ref"), r, int_cst(st["v"].i(), st.geti("w", 32)));
+  } else if (op == "rload") {
+    bb.load_from_ref(X("x"), X("ref"), X("r"));
+  } else if (op == "gep") {
+    bb.gep_ref(X("x"), X("xr"), X("y"), X("yr"), lin_exp(st["off"], vt));
+  } else if (op == "rassume") {
+    bb.assume_ref(ref_cst(st["c"], vt));
+  } else if (op == "rassert") {
+    bb.assert_ref(ref_cst(st["c"], vt), crab::cfg::debug_info(st["id"].i()));
+  } else if (op == "bassign_ref") {
+    bb.bool_assign(X("x"), ref_cst(st["c"], vt));
+  } else if (op == "rselect") {
+    if (st["y"].i() == 0) bb.select_ref_null_true_value(X("x"), X("xr"), X("c"), X("z"), X("zr"));
+    else if (st["z"].i() == 0) bb.select_ref_null_false_value(X("x"), X("xr"), X("c"), X("y"), X("yr"));
+    else bb.select_ref(X("x"), X("xr"), X("c"), X("y"), X("yr"), X("z"), X("zr"));
+  } else if (op == "r2i") {
+    bb.ref_to_int(X("r"), X("ref"), X("x"));
+  } else if (op == "i2r") {
+    bb.int_to_ref(X("y"), X("r"), X("x"));
+  } else if (op == "addtag") {
+    bb.intrinsic("add_tag", {}, {z_var_or_cst_t(X("r")), z_var_or_cst_t(X("ref")), int_cst(st["tag"].i())});
+  } else if (op == "isderef") {
+    bb.intrinsic("is_dereferenceable", {X("x")}, {z_var_or_cst_t(X("r")), z_var_or_cst_t(X("ref")), int_cst(st["n"].i())});
+  } else if (op == "isunfreed") {
+    bb.intrinsic("is_unfreed_or_null", {X("x")}, {z_var_or_cst_t(X("r")), z_var_or_cst_t(X("ref"))});
   } else if (op == "conv") {
     const std::string &f = st["f"].str();
     if (f == "trunc") bb.truncate(X("y"), X("x"));
